@@ -244,7 +244,7 @@ DEFAULT_PROFILE: Dict[str, Any] = {
     "custom_chargers": 0.3,
     "spread": 0.02,
     "time_format": None,
-    "search_type": "nearest_shortest_queue",
+    "search_type": None,  # None = nearest_shortest_queue (9 of 10) or shortest_time_to_charge
     "idle_time_out": None,
     "colocate": 0.25,
     "starts": [0, 0, 1000, 3600, 43200, 86399],
@@ -505,7 +505,8 @@ def random_spec(seed: int, profile: Optional[Dict[str, Any]] = None) -> Dict[str
     lazy = P["lazy"] if P["lazy"] is not None else rnd.random() < 0.4
     # the ring search scans every search cell within the radius when a vehicle has no usable station in reach
     # (41 rings at the default 100 km); a small radius keeps such (legitimate) cases affordable
-    disp: Dict[str, Any] = {"charging_search_type": P["search_type"], "max_search_radius_km": rnd.choice([4.0, 8.0, 12.0])}
+    search_type = P["search_type"] or rnd.choice(["nearest_shortest_queue"] * 9 + ["shortest_time_to_charge"])
+    disp: Dict[str, Any] = {"charging_search_type": search_type, "max_search_radius_km": rnd.choice([4.0, 8.0, 12.0])}
     if P.get("idle_time_out") is not None:
         disp["idle_time_out_seconds"] = P["idle_time_out"]
     if isinstance(P.get("dispatcher"), dict):
